@@ -57,3 +57,6 @@ Fixpoint py_any {A} (f : A -> option bool) (l : list A) : option bool :=
   | [] => Some false
   | x :: r => match f x with None => None | Some true => Some true | Some false => py_any f r end
   end.
+
+(* ---- _check_and_fire_on_done: what entering a final state decides ---- *)
+Inductive on_done_decision := DFire (a : nat) | DComplete | DNothing.
